@@ -5,6 +5,7 @@
 From Coq Require Import List ZArith NArith String Bool.
 From IprV Require Import GenTypes Arena ArenaProofs Lexicon LexiconProofs LexInst.
 From IprV.gen Require Import GenWords GenLexAcc.
+From IprV.gen Require Import GenStatics.
 Import ListNotations.
 Local Open Scope string_scope.
 
@@ -115,6 +116,14 @@ Theorem c13_spelling_routes_atoms : forall m,
   Norm m (RString (bytes_of_string "default")) = NConst (StrKnown ix_default).
 Proof. intros. vm_compute. repeat split; reflexivity. Qed.
 
+(* No object of static storage duration defined by the library is initialized at run time before main(): each is constexpr
+   (constant-initialized, hence complete before any initializer of any translation unit runs) or a function-local static
+   (initialized on first use).  A client's namespace-scope object may therefore use the library's constants. *)
+Theorem c13_constants_ready_before_main :
+  forallb (fun s => s_constexpr s || s_static_local s) gen_statics = true.
+Proof. vm_compute. reflexivity. Qed.
+
+Print Assumptions c13_constants_ready_before_main.
 Print Assumptions c13_builtin_accessors_distinct.
 Print Assumptions c13_builtin_spelling.
 Print Assumptions c13_symbolic_constants.
